@@ -30,13 +30,38 @@ var groupsByKind = map[string][]fieldGroup{
 				}
 				for i := range svc(o).Spec.Ports {
 					a, b := svc(o).Spec.Ports[i], svc(n).Spec.Ports[i]
-					if a.Port != b.Port || a.TargetPort != b.TargetPort || a.Protocol != b.Protocol {
+					if a.Port != b.Port || a.TargetPort != b.TargetPort {
 						return true
 					}
 				}
 				return false
 			},
-			func(o, n client.Object) { svc(n).Spec.Ports = svc(o).DeepCopy().Spec.Ports }},
+			func(o, n client.Object) {
+				if !samePortCount(o, n) {
+					svc(n).Spec.Ports = svc(o).DeepCopy().Spec.Ports
+					return
+				}
+				for i := range svc(o).Spec.Ports {
+					svc(n).Spec.Ports[i].Port, svc(n).Spec.Ports[i].TargetPort = svc(o).Spec.Ports[i].Port, svc(o).Spec.Ports[i].TargetPort
+				}
+			}},
+		{"protocol",
+			func(o, n client.Object) bool {
+				if !samePortCount(o, n) {
+					return false
+				}
+				for i := range svc(o).Spec.Ports {
+					if svc(o).Spec.Ports[i].Protocol != svc(n).Spec.Ports[i].Protocol {
+						return true
+					}
+				}
+				return false
+			},
+			func(o, n client.Object) {
+				for i := range svc(o).Spec.Ports {
+					svc(n).Spec.Ports[i].Protocol = svc(o).Spec.Ports[i].Protocol
+				}
+			}},
 		{"port-name",
 			func(o, n client.Object) bool {
 				if !samePortCount(o, n) {
